@@ -309,6 +309,13 @@ def rule_ag2(ctx: Ctx) -> RuleResult:
                                                  "the plain arm re-enters with (%s) while the mux arm is configured with (%s)" % (
                                                      ", ".join(inner_args), ", ".join(ast.unparse(x) for x in first.args))))
                         continue
+                # the plain arm multiplexes the source and re-enters this very function: the mux arm then runs with the
+                # same closure, there is nothing to compare
+                if len(ab) == 1 and ab[0] == fn.name:
+                    r.ob(True)
+                    r.notes.append("%s: the plain arm re-enters %s on the multiplexed source" % (m.where(d), fn.name)) if \
+                        ("%s: the plain arm re-enters %s on the multiplexed source" % (m.where(d), fn.name)) not in r.notes else None
+                    continue
                 # closure arm: ops.map(_local) -> compare captured factory parameters
                 cap = None
                 if len(ab) == 1 and ab[0].isidentifier():
